@@ -720,9 +720,81 @@ def d_call(cx, bi, t):
     return None
 
 
+def lower_bound_invariant(cx, local, bound):
+    """Inductive check that integer local >= bound at every definition: constants >= bound, `l + k` (k >= 0), and
+    `l - k` only under a stable path fact l >= bound + k."""
+    b, lin = cx.b, cx.lin
+    sym = "L%d" % local
+    for d in b.defs().get(local, []):
+        if d["kind"] != "assign":
+            return False
+        rv = d["stmt"]["rv"]
+        if rv["k"] != "use":
+            return False
+        c = op_const(rv["op"])
+        if c is not None:
+            v = const_value(c)
+            if not (isinstance(v, int) and v >= bound):
+                return False
+            continue
+        f = lin.form(rv["op"])
+        if f is None or set(k for k in f if k != 1) != {sym} or f.get(sym) != 1:
+            return False
+        k = f.get(1, 0)
+        if k >= 0:
+            continue
+        goal = lf_add(lf_const(bound - k), {sym: 1, 1: 0}, -1)  # bound + |k| - l <= 0
+        # facts must hold where the subtraction is computed: the block of the (checked) arithmetic
+        p = op_place(rv["op"])
+        srcd = b.single_def(p["local"]) if p else None
+        blk = srcd["block"] if srcd else d["block"]
+        if not entails(cx.stable_facts(blk), goal):
+            return False
+    return True
+
+
+def root_never_removed(cx, vec_local):
+    """Every shrinking operation on the vector is remove(idx) with idx >= 1 provable; created by collect() of a split."""
+    b, lin = cx.b, cx.lin
+    created = [d for d in b.defs().get(vec_local, []) if d["kind"] == "call"]
+    if len(created) != 1 or not re.search(r"Iterator::collect$", created[0]["term"]["callee"]) or not b.slice_op(created[0]["term"]["args"][0]).has_call(r"str>::split$"):
+        return False
+    for d in b.defs().get(vec_local, []):
+        if d["kind"] != "mutcall":
+            continue
+        c = d["term"]["callee"]
+        if re.search(r"Vec::<T, A>::(clear|truncate|pop|drain|retain\w*|swap_remove|split_off|dedup\w*)$", c):
+            return False
+        if re.search(r"Vec::<T, A>::remove$", c):
+            f = lin.form(d["term"]["args"][1])
+            if f is None:
+                return False
+            syms = [k for k in f if k != 1]
+            if len(syms) != 1 or not re.match(r"^L\d+$", str(syms[0])) or f[syms[0]] != 1:
+                return False
+            l = int(syms[0][1:])
+            k = f.get(1, 0)
+            if k >= 0:
+                if not lower_bound_invariant(cx, l, 1):
+                    return False
+            else:
+                goal = lf_add(lf_const(1 - k), {syms[0]: 1, 1: 0}, -1)
+                if not entails(cx.stable_facts(d["block"]), goal):
+                    return False
+    return True
+
+
 def d_panic_call(cx, bi, t):
     """assert!/assert_eq! failure arms: discharged when the asserted condition is statically true."""
     b = cx.b
+    # assert!(!v.is_empty()) where element 0 of a collected split is never removed
+    for a, s, cnd, truth in guard_conditions(b, bi):
+        if cnd["kind"] == "call" and re.search(r"Vec::<T, A>::is_empty$", cnd["callee"]) and truth is True:
+            v = root_local(b, cnd["term"]["args"][0])
+            pts = b.pointees().get(op_local(cnd["term"]["args"][0]), set())
+            for vl in ([v] + sorted(pts)):
+                if vl is not None and root_never_removed(cx, vl):
+                    return ("root-never-removed", "the vector is the collect() of a split (>= 1 element) and every removal provably has index >= 1 (loop invariant i >= 1; `..` branch under i >= 2): it cannot be empty")
     for a, s, cnd, truth in guard_conditions(b, bi):
         if cnd["kind"] != "binop" or cnd["op"] not in ("Eq", "Ne"):
             continue
